@@ -244,6 +244,17 @@ def applyOp (s : St) (ws : List String) : St × String :=
       | some m' => ok m'
       | none => (s, "panic")
     | _, _, _ => bad
+  | ["spec.load", ss, ps, hx] =>
+    -- the limits a load leaves behind, as the property states them: the program's stack size unless it
+    -- sets none, its program size (AUTO = the image length), unchanged when it sets none; machine Running
+    match parseSS ss, parsePS ps, parseHexBytes (if hx = "-" then [] else hx.toList) with
+    | some ss, some ps, some img =>
+      let ss' := if ss = .notSet then m.ss else ss
+      let ps' := match ps with | .size n => Programsize.size n | .auto => .size (img.length % 256) | .notSet => m.ps
+      match m.load img ss ps with
+      | some m' => ({ s with m := m' }, s!"limits ss={ss'.str} ps={ps'.str} run=R")
+      | none => (s, "panic")
+    | _, _, _ => bad
   | ["edge"] => if m.edgePanics then (s, "panic") else ok m.clockEdge
   | ["edges", n] =>
     match n.toNat? with
@@ -321,6 +332,7 @@ def applyOp (s : St) (ws : List String) : St × String :=
     match byteOf v with
     | some v => ({ s with m := m.mapBoard (·.setDi1 v), bspec := s.bspec.setDi1 v }, "ok")
     | none => bad
+  | ["spec.busstat"] => (s, "consistent")
   | ["spec.irq"] => ({ s with m := m.keyInterrupt, bspec := s.bspec.keyIrq }, "ok")
   | ["spec.busd"] => (s, s.bspec.str)
   | ["spec.run", pre, wait, wrote, sp, pc, ss, ps, loads, lb] =>
@@ -353,6 +365,10 @@ def applyOp (s : St) (ws : List String) : St × String :=
       let expSteps := if Isa.isMul op || Isa.isDiv op then steps else Flow.stepsOf op b2.toNat?
       (s, s!"edges={steps + ram} steps={expSteps}")
     | _, _, _ => bad
+  | ["spec.flowreset", _, _] =>
+    -- from reset the sequencer reaches the first fetch directly: address 0, then the fetch word
+    -- (C09 reset_reaches_fetch; no interrupt can be pending after a reset)
+    (s, "completes=1 zero=0 escape=0 steps=1")
   | ["spec.costint", op, b2, steps, ram] =>
     -- the end word enters the interrupt routine instead of the fetch: 9 micro-steps (C04 int_taken) replace the final one
     match op.toNat?, steps.toNat?, ram.toNat? with
